@@ -267,9 +267,14 @@ pub fn t2_check_crc(ctx: &Ctx) {
     let Some((bytes, name)) = corpus_file(ctx, false) else { return };
     let pages = bytes.len() / 1024;
     // 0 intact; 1..=pages payload damage; pages+1..=2*pages checksum damage; then truncations
-    let d = ctx.pick("damage", 2 * pages + 3);
+    let d = ctx.pick("damage", 2 * pages + 3 + 4);
     let mut b = bytes.clone();
-    let what = if d == 0 {
+    let what = if d >= 2 * pages + 3 {
+        // the file signature and the header fields (all part of page 0 and of its checksum)
+        let at = [0usize, 7, 20, 44][d - (2 * pages + 3)];
+        b[at] ^= 0x01;
+        format!("byte {at} of the file header damaged")
+    } else if d == 0 {
         "intact".to_string()
     } else if d <= pages {
         b[(d - 1) * 1024 + 333] ^= 0x20;
